@@ -45,8 +45,7 @@ def plan(tier, seed):
     seeds_q = [L[n] for n in ["Hc22", "Sy22", "Sy22i", "Un22c", "St32", "D22c", "Dg2c", "I2", "P3", "H2c", "Sc2n",
                               "Sc2i", "Sc2h", "TL22", "R0"]]
     # off-diagonal blocks / permuted index arrays of larger declared-self-adjoint parents
-    big = list(catalog.big_annotated_leaves().values())
-    offs = dict(seeds=big, operands=ops[:1], small=small, acts={"Annot", "Sliced", "anns"}, lvl=2, dim=5,
+    offs = dict(seeds=catalog.declared_leaves(), operands=ops[:1], small=small, acts={"Sliced", "anns"}, lvl=1, dim=5,
                 forms=catalog.offset_forms(), stride=1, ebound=40)
     if tier == "quick":
         return [
@@ -231,6 +230,25 @@ def routine_outputs(tier):
         outs.append((f"inv(unitary{n})", cola.linalg.inv(Un)))
         P = cola.ops.Permutation(rng.permutation(n), dtype=np.float64)
         outs.append((f"inv(perm{n})", cola.linalg.inv(P)))
+        # declared self-adjoint inputs with a REPEATED eigenvalue through every eigen-algorithm (a general
+        # eigensolver returns unit-norm but not orthogonal vectors inside the eigenspace)
+        from cola.linalg.algorithm_base import Auto
+        Qo = np.linalg.qr(B)[0]
+        lam = np.array([1.0, 1.0] + list(range(2, n)))
+        reps = [("rep-psd", cola.PSD, Qo @ np.diag(lam) @ Qo.T),
+                ("rep-sa", cola.SelfAdjoint, Qo @ np.diag(lam * np.where(np.arange(n) < 2, -1.0, 1.0)) @ Qo.T)]
+        if n == 4:
+            reps.append(("kronsum0", cola.SelfAdjoint, np.array([[0., 2, 2, 0], [2, 0, 0, 2], [2, 0, 0, 2], [0, 2, 2, 0]])))
+        for nm, decl, M in reps:
+            A = decl(cola.ops.Dense((M + M.T) / 2))
+            for k in (2, n):
+                for alg, an in ((Eig(), "Eig"), (Eigh(), "Eigh"), (Auto(), "Auto"), (Lanczos(max_iters=n), "Lanczos"),
+                                (Arnoldi(max_iters=n), "Arnoldi")):
+                    try:
+                        _, Wv = cola.linalg.eig(A, k, "LM", alg)
+                    except Exception:  # noqa: BLE001   (whether the call succeeds is C10's business)
+                        continue
+                    outs.append((f"eig({nm}{n},k={k},{an}).V", Wv))
         W = rng.randn(n + 2, n)
         for k in (1, n):
             U, Sg, Vv = svd(cola.ops.Dense(W), k, "LM", DenseSVD())
